@@ -370,9 +370,19 @@ Proof.
   - rewrite app_assoc. apply slice_from_field. blen_norm. reflexivity.
 Qed.
 
-Lemma encodable_acceptable c : encodableb c = true -> acceptableb c = true.
+(** an accepted command is encodable unless it has more than 255 data shapes: a storable name is shorter
+    than the one-byte length field can express (elementNameHeaderBytes <= 255, by computation on the
+    generated constant) *)
+Lemma accepted_encodable c : acceptableb c = true -> many_shapesb c = false -> encodableb c = true.
 Proof.
-  unfold encodableb, acceptableb. rewrite !andb_true_iff. tauto.
+  unfold acceptableb, many_shapesb, encodableb. rewrite !andb_true_iff.
+  intros ((((((((H1 & H2) & H3) & H4) & H5) & H6) & H7) & H8) & H9) Hm.
+  apply Z.ltb_ge in Hm.
+  repeat split; try assumption.
+  - apply Z.leb_le. exact Hm.
+  - rewrite forallb_forall in *. intros s Hs. specialize (H9 s Hs).
+    unfold storable_nameb in H9. apply andb_prop in H9 as [H9 _]. apply Z.leb_le in H9.
+    unfold shape_okb. apply Z.leb_le. unfold elementNameHeaderBytes in H9. lia.
 Qed.
 
 (* ------------------------------------------------------------------ the checked decoder equals the unguarded steps, minus the panics *)
